@@ -143,6 +143,28 @@ def draw_and_judge(res, c, label, order, labels, compact, cfgname):
         if row is None or abs(y + row * spacing) > EPS:
             res.fail('C18-row', '%s: %s on qubit %d drawn at y=%r, expected row %r' % (label, type(comp).__name__, q, y, row))
             break
+    # components that are anchored at more than one point (two-qubit gates): their anchors sit on the rows of the qubits of one
+    # multi-qubit operation of the circuit - e.g. not both on the control row
+    from qce_circuit.utilities.geometric_definitions.intrf_rectilinear_transform import IPivotStrategy
+    spacing_rows = {s_ for _q, _c, _x, _y, _r, s_ in spy.pivots}
+    if len(spacing_rows) == 1 and hasattr(d, 'get_operation_draw_components'):
+        spacing = spacing_rows.pop()
+        multi = set()
+        for o in ops:
+            rws = frozenset(want_rows.index(ci.id) for ci in o.channel_identifiers if ci.id in want_rows)
+            if len(rws) > 1:
+                multi.add(rws)
+        for comp in d.get_operation_draw_components():
+            anchors = [v for v in vars(comp).values() if isinstance(v, IPivotStrategy)]
+            if len(anchors) < 2 or not spacing:
+                continue
+            try:
+                rws = frozenset(int(round(-a.get_pivot(None).y / spacing)) for a in anchors)
+            except Exception:
+                continue
+            if multi and not any(rws == m or (len(rws) > 1 and rws <= m) for m in multi):
+                res.fail('C18-row', '%s: a %s is anchored on rows %r, the multi-qubit operations of the circuit occupy rows %r' % (label, type(comp).__name__, sorted(rws), sorted(map(sorted, multi))))
+                break
     missing = [type(o).__name__ for o in ops if id(o) not in drawn]
     if missing:
         res.fail('C18-not-drawn', '%s: operations without a drawn position: %r' % (label, missing))
